@@ -291,3 +291,57 @@ def h_evolver_baseline(database: int, has_d: bool, has_o: bool) -> bool:
         for i in range(2):
             _reset_db(ALIASES[i], False)
     return hx.verdict(ok, True)
+
+
+# ------------------------------------------------------------------ applied / pending evolutions per database
+import django_evolution.utils.evolutions as evoutil
+
+
+def _reset_evolution_rows(alias, labels):
+    conn = connections[alias]
+    existing = conn.introspection.table_names()
+    with conn.schema_editor() as se:
+        for m in (Evolution, Version):
+            if m._meta.db_table in existing:
+                se.delete_model(m)
+        se.create_model(Version)
+        se.create_model(Evolution)
+    v = Version(signature=ProjectSignature())
+    v.save(using=alias)
+    for lab in labels:
+        Evolution(version=v, app_label='vapp16', label=lab).save(using=alias)
+    # a same-named evolution of another app must not count
+    Evolution(version=v, app_label='otherapp', label='e0').save(using=alias)
+
+
+SEQUENCE = ['e0', 'e1', 'e2']
+
+
+def h_unapplied(database: int, d0: bool, d1: bool, d2: bool, o0: bool, o1: bool, o2: bool) -> bool:
+    """get_unapplied_evolutions / get_applied_evolutions(app, database): what counts as applied
+    is what is recorded on *that* database (two real SQLite databases holding symbolic subsets of
+    the app's three evolution labels).
+
+    pre: 0 <= database <= 1
+    pre: not hx.excluded(database, d0, d1, d2, o0, o1, o2)
+    post: _
+    """
+    database = hx.realize(database)
+    rec = [[bool(hx.realize(x)) for x in (d0, d1, d2)], [bool(hx.realize(x)) for x in (o0, o1, o2)]]
+    with hx.NoTracing():
+        for i in range(2):
+            _reset_evolution_rows(ALIASES[i], [l for l, r in zip(SEQUENCE, rec[i]) if r])
+        saved = (evoutil.get_evolution_sequence, evoutil.get_app_label)
+        evoutil.get_evolution_sequence = lambda app: list(SEQUENCE)
+        evoutil.get_app_label = lambda app: 'vapp16'
+        try:
+            pending = evoutil.get_unapplied_evolutions(None, ALIASES[database])
+            applied = evoutil.get_applied_evolutions(None, ALIASES[database])
+        finally:
+            evoutil.get_evolution_sequence, evoutil.get_app_label = saved
+            for i in range(2):
+                _reset_db(ALIASES[i], False)
+        want_pending = [l for l, r in zip(SEQUENCE, rec[database]) if not r]
+        want_applied = [l for l, r in zip(SEQUENCE, rec[database]) if r]
+        ok = list(pending) == want_pending and sorted(applied) == want_applied
+    return hx.verdict(ok, rec[0] != rec[1])
